@@ -641,6 +641,13 @@ var stringFuncs = map[string]bool{
 	"fmt.Errorf": true, "strings.Clone": true, "strings.SplitN": true,
 }
 
+// library functions whose result is made of elements of their slice arguments (a subset, a copy, a
+// reordering, a concatenation)
+var sliceShapeFuncs = map[string]bool{
+	"slices.DeleteFunc": true, "slices.Delete": true, "slices.Clone": true, "slices.Compact": true, "slices.CompactFunc": true,
+	"slices.Clip": true, "slices.Grow": true, "slices.Concat": true, "slices.Sorted": true, "slices.Insert": true,
+}
+
 func (s *Slicer) resolveCall(call *ssa.Call, ridx int, chain []step, st *frame) []Prov {
 	name := calleeName(call)
 	args := call.Call.Args
@@ -694,6 +701,15 @@ func (s *Slicer) resolveCall(call *ssa.Call, ridx int, chain []step, st *frame) 
 		return []Prov{{Kind: "int"}}
 	case stringFuncs[name]:
 		return argsUnion(nil)
+	case sliceShapeFuncs[name]:
+		// the result holds (some of) the elements of the slice arguments, nothing else
+		var out []Prov
+		for _, a := range args {
+			if _, isSl := a.Type().Underlying().(*types.Slice); isSl {
+				out = append(out, s.resolve(a, chain, st)...)
+			}
+		}
+		return out
 	case name == "strconv.Itoa" || name == "strconv.FormatInt" || name == "strconv.FormatUint" || name == "strconv.FormatBool":
 		return []Prov{{Kind: "int"}}
 	case name == modPath+"/eth.EncodeHex" || name == "encoding/hex.EncodeToString" || name == modPath+"/eth.EncodeUint64":
